@@ -149,7 +149,23 @@ def _neutralise_upper_route(case):
     return c
 
 
+_INDEX_ANYCASE = _re.compile(r"/((?:index|default)(?:\.[^/?#.]*)?)(?=/|$|[?#])", _re.I)
+
+
+def _mixed_case_index(case):
+    return any(m.group(1) != m.group(1).lower() for k in ("u", "v") for m in _INDEX_ANYCASE.finditer(case.get(k, "")))
+
+
+def _neutralise_mixed_case_index(case):
+    c = dict(case)
+    for k in ("u", "v"):
+        if k in c:
+            c[k] = _INDEX_ANYCASE.sub(lambda m: "/" + m.group(1).lower(), c[k])
+    return c
+
+
 TRIGGERS = {"cache-tail-with-dot-segment": (_cache_tail_dots, _neutralise_cache_dots),
+            "mixed-case-index-page": (_mixed_case_index, _neutralise_mixed_case_index),
             "escaped-question-mark-before-redirect-key": (_escaped_redirect_marker, _neutralise_escaped_marker),
             "upper-case-platform-route-word": (_upper_route_word, _neutralise_upper_route)}
 
@@ -229,6 +245,16 @@ def _corner_shapes(acc, shard, nshards, seed, tier):
             handle = host + "/" + path.split("/")[1]
             acc.check({"kind": "pair", "u": u, "v": handle, "family": "corner", "transforms": ["route-word-case"], "options": o}, _pair_nt, ["corner:upper-case-route-word"])
             acc.check({"kind": "single", "u": u, "options": o}, lambda c: c.pop("_changed", True), ())
+    for (u, v), o in itertools.product(INDEX_CASE_PAIRS, optsets):
+        idx += 1
+        if idx % nshards != shard:
+            continue
+        acc.check({"kind": "pair", "u": u, "v": v, "family": "corner", "transforms": ["index-page-case"], "options": o}, _pair_nt, ["corner:mixed-case-index-page"])
+
+
+INDEX_CASE_PAIRS = [("http://a.com/x/INDEX.HTML/index.html", "http://a.com/x/INDEX.HTML"), ("https://b.org/Index.php/amp/", "https://b.org/Index.php"),
+                    ("http://a.com/DEFAULT.ASPX/default.asp?x=1", "http://a.com/DEFAULT.ASPX?x=1"), ("http://a.com/x/Index/index", "http://a.com/x/Index"),
+                    ("http://a.com/x/index.html/index.html", "http://a.com/x/index.html"), ("http://a.com/x/INDEX.HTML", "http://a.com/x/index.html")]
 
 
 def _pair_nt(case):
